@@ -100,7 +100,9 @@ func engineSequence(schema *graphql.Schema, query, opName string, vars []byte) *
 			astnormalization.WithPrevalidationRules(
 				astvalidation.DeferStreamOnValidOperations(),
 				astvalidation.DeferStreamHaveUniqueLabels(),
+				astvalidation.DirectivesAreDefined(),
 				astvalidation.DirectivesAreInValidLocations(),
+				astvalidation.DirectivesAreUniquePerLocation(),
 				astvalidation.StreamAppliedToListFieldsOnly()),
 		)
 		if err != nil || !result.Successful {
